@@ -3037,7 +3037,17 @@ func (c *compiler) emitCallee(callee compiledExpr) (calleeName unistring.String)
 	case *compiledOptionalChain:
 		c.startOptChain()
 		c.emitCallee(callee.expr)
-		c.endOptChain()
+		if len(c.block.breaks) > 0 || len(c.block.conts) > 0 {
+			// a short circuit inside the (parenthesised) chain leaves a single undefined; as a callee it has to be
+			// a 'this' value and a function value like on the regular path
+			skip := len(c.p.code)
+			c.emit(nil)
+			c.endOptChain()
+			c.emit(loadUndef)
+			c.p.code[skip] = jump(len(c.p.code) - skip)
+		} else {
+			c.endOptChain()
+		}
 	case *compiledOptional:
 		c.emitCallee(callee.expr)
 		c.block.conts = append(c.block.conts, len(c.p.code))
